@@ -59,6 +59,11 @@ pub struct Case {
     /// For the j-th yielded event: keep it for this many further yields
     /// (255 = until after the iterator is dropped).
     pub keep: Vec<u8>,
+    /// Watch directory k a second time under another path (after a rename):
+    /// same inode, same watch descriptor; events are then reported
+    /// under the path used last.
+    #[serde(default)]
+    pub rewatch: Option<u8>,
 }
 
 const BUF_SIZE: usize = 272;
@@ -192,8 +197,9 @@ impl Property for C17 {
             proptest::collection::vec(rec(), 0..14),
             proptest::collection::vec(prop_oneof![10 => (1u8..8).prop_map(Read::Batch), 1 => Just(Read::Empty), 1 => (0u8..4).prop_map(Read::Error)], 0..10),
             proptest::collection::vec(prop_oneof![4 => Just(0u8), 4 => 1u8..6, 1 => Just(255u8)], 0..14),
+            proptest::option::weighted(0.3, 0u8..3),
         )
-            .prop_map(|(watches, records, reads, keep)| Case { watches, records, reads, keep })
+            .prop_map(|(watches, records, reads, keep, rewatch)| Case { watches, records, reads, keep, rewatch })
             .boxed()
     }
 
@@ -206,7 +212,7 @@ impl Property for C17 {
     }
 
     fn rule() -> &'static str {
-        "proptest: a real Watcher (real inotify descriptor, real watches on temporary directories, so the watch table holds real watch descriptors) whose READs are answered by the simulated kernel with generated record batches: names of 0..255 bytes, kernel-rule padding and extra NUL padding, all mask bits, known and unknown watch descriptors, IN_IGNORED and IN_Q_OVERFLOW records, batched into successive reads in every way that keeps records whole and within the 272-byte buffer (the rest of the buffer holds canaries), empty reads, read errors; plus a retention plan saying for how many further yields (or until after the iterator is dropped) the caller keeps each yielded &Event. Oracle: yielded sequence == model (records minus IGNORED/OVERFLOW) with equal wd/mask/cookie, name without padding, path_for == watched path joined with the name (name only for unknown or forgotten wds); error yielded once then None; every retained event, re-read at its planned later point, is unchanged and still inside the live allocation it was in. Non-trivial = a read with >= 2 records, or a record followed by IGNORED for its wd, or a retention that crosses a later read. Distinct = (classes, 16-bit case hash)."
+        "proptest: a real Watcher (real inotify descriptor, real watches on temporary directories, so the watch table holds real watch descriptors; optionally one directory is renamed and watched a second time, which yields the same watch descriptor and makes the new name the path events are reported under) whose READs are answered by the simulated kernel with generated record batches: names of 0..255 bytes, kernel-rule padding and extra NUL padding, all mask bits, known and unknown watch descriptors, IN_IGNORED and IN_Q_OVERFLOW records, batched into successive reads in every way that keeps records whole and within the 272-byte buffer (the rest of the buffer holds canaries), empty reads, read errors; plus a retention plan saying for how many further yields (or until after the iterator is dropped) the caller keeps each yielded &Event. Oracle: yielded sequence == model (records minus IGNORED/OVERFLOW) with equal wd/mask/cookie, name without padding, path_for == watched path joined with the name (name only for unknown or forgotten wds); error yielded once then None; every retained event, re-read at its planned later point, is unchanged and still inside the live allocation it was in. Non-trivial = a read with >= 2 records, or a record followed by IGNORED for its wd, or a retention that crosses a later read. Distinct = (classes, 16-bit case hash)."
     }
 
     fn assumptions() -> Vec<&'static str> {
@@ -281,6 +287,32 @@ fn run_case(case: &Case, ctx: &mut Ctx) {
                 return;
             }
         }
+    }
+
+    let mut dirs = dirs;
+    if let Some(k) = case.rewatch {
+        let k = k as usize % nwatch;
+        // (A renamed directory: watch_directory does not follow links.)
+        let link = dirs[k].parent().unwrap().join(format!("moved{k}"));
+        if std::fs::rename(&dirs[k], &link).is_err() {
+            ctx.infra("could not rename the watched directory");
+            return;
+        }
+        let before = inotify_wds(ifd);
+        let r = {
+            let _s = track::scope(track::TAG_A10);
+            watcher.watch_directory(link.clone(), Interest::ALL, Recursive::No)
+        };
+        let _ = std::fs::rename(&link, &dirs[k]);
+        if let Err(e) = r {
+            ctx.infra(format!("watch_directory (second path) failed: {e}"));
+            return;
+        }
+        if inotify_wds(ifd) != before {
+            ctx.infra("watching the same directory through a link created a new watch descriptor");
+            return;
+        }
+        dirs[k] = link;
     }
 
     // Build the reads and the model.
